@@ -1,16 +1,22 @@
-// C40 harness: replicated uploads and deletes.
+// C40 harness: histories of replicated uploads and deletes.
 //
 // One primary and three more real volume servers (real VolumeServer handlers via
 // the verif constructor, separate Stores in temp dirs, each behind its own
-// net/http server on a 127.0.0.1:0 listener), a fake master answering
-// /dir/lookup, a fake replica that answers 500 and one that drops every
-// connection.  The client
-// request goes to the primary's real PostHandler / DeleteHandler, which run the
-// real topology.ReplicatedWrite / ReplicatedDelete (getWritableRemoteReplications
-// -> operation.Lookup against the fake master, distributedOperation,
-// operation.UploadData / util.Delete over real HTTP to the replicas' real
-// handlers).  Observed: the client-visible status and, on every server listed
-// as a location of the volume, the needle read back from its Store.
+// net/http server on a 127.0.0.1:0 listener) and a fake master answering
+// /dir/lookup.  Every replica's listener goes through a switch the harness sets
+// per step: serve, answer 500 to every request, drop every connection, answer 500
+// to the first request only.  The client requests go to the primary's real
+// PostHandler / DeleteHandler, which run the real topology.ReplicatedWrite /
+// ReplicatedDelete (getWritableRemoteReplications -> operation.Lookup against the
+// fake master, distributedOperation, operation.UploadData / util.Delete over real
+// HTTP to the replicas' real handlers).
+//
+// A case is a short history on one or two fresh file ids of one replicated
+// volume: uploads (fresh, identical retry, same bytes under other metadata, other
+// bytes, other cookie) and deletes, each step with its own replica faults.
+// Observed after EVERY step: the client-visible status and, on every server
+// listed as a location of the volume, the needle read back from its Store for
+// every file id of the case.
 package main
 
 import (
@@ -30,6 +36,7 @@ import (
 	"sort"
 	"strconv"
 	"strings"
+	"sync/atomic"
 	"time"
 
 	weed_server "github.com/chrislusf/seaweedfs/weed/server"
@@ -43,10 +50,66 @@ import (
 
 // ---------- servers ----------
 
+// fault codes of one step (the model's): 0 serve; 1 answer 500 to every request; 2 drop
+// every connection; 3 serve every request and then answer 500 (the answer is lost);
+// 4 / 5 answer 500 to the first / the first two requests only
 type server struct {
-	store *storage.Store
-	vs    *weed_server.VolumeServer
-	addr  string
+	store    *storage.Store
+	vs       *weed_server.VolumeServer
+	addr     string
+	mode     int32
+	failLeft int32
+}
+
+func (s *server) setFault(code int) {
+	atomic.StoreInt32(&s.mode, int32(code))
+	if code == 4 {
+		atomic.StoreInt32(&s.failLeft, 1)
+	} else if code == 5 {
+		atomic.StoreInt32(&s.failLeft, 2)
+	} else {
+		atomic.StoreInt32(&s.failLeft, 0)
+	}
+}
+
+func fail500(w http.ResponseWriter, r *http.Request) {
+	io.Copy(io.Discard, r.Body)
+	w.Header().Set("Content-Type", "application/json")
+	w.WriteHeader(500)
+	w.Write([]byte(`{"error":"injected failure"}`))
+}
+
+// discardRW swallows the real handler's answer
+type discardRW struct{ h http.Header }
+
+func (d *discardRW) Header() http.Header         { return d.h }
+func (d *discardRW) Write(b []byte) (int, error) { return len(b), nil }
+func (d *discardRW) WriteHeader(int)             {}
+
+func (s *server) handle(w http.ResponseWriter, r *http.Request) {
+	switch atomic.LoadInt32(&s.mode) {
+	case 1:
+		fail500(w, r)
+		return
+	case 3:
+		s.vs.VerifC40PrivateHandler(&discardRW{h: http.Header{}}, r)
+		fail500(w, r)
+		return
+	case 2:
+		if hj, ok := w.(http.Hijacker); ok {
+			if c, _, err := hj.Hijack(); err == nil {
+				c.Close()
+				return
+			}
+		}
+		panic(http.ErrAbortHandler)
+	case 4, 5:
+		if atomic.AddInt32(&s.failLeft, -1) >= 0 {
+			fail500(w, r)
+			return
+		}
+	}
+	s.vs.VerifC40PrivateHandler(w, r)
 }
 
 func newServer(master string) *server {
@@ -67,22 +130,24 @@ func newServer(master string) *server {
 	}()
 	vs := weed_server.NewVerifVolumeServer(s, 256<<20)
 	vs.VerifC40SetMaster(master)
-	go http.Serve(lis, http.HandlerFunc(vs.VerifC40PrivateHandler))
-	return &server{store: s, vs: vs, addr: "127.0.0.1:" + strconv.Itoa(port)}
+	srv := &server{store: s, vs: vs, addr: "127.0.0.1:" + strconv.Itoa(port)}
+	go http.Serve(lis, http.HandlerFunc(srv.handle))
+	return srv
 }
 
 func (s *server) addVolume(vid int, repl string) {
 	hx.Must(s.store.AddVolume(needle.VolumeId(vid), "", storage.NeedleMapInMemory, repl, "", 0, 0, types.HardDriveType))
 }
 
-// scenario = one replicated volume and the servers the master lists for it
+// scenario = one replicated volume and the servers the master lists for it (all real)
 type scenario struct {
 	name  string
 	vid   int
-	fault int // 0 none, 1 a replica answers 500, 2 a replica is down, 3 a listed replica does not hold the volume
+	lost  bool // the listed replicas do not hold the volume
+	nolk  bool // the lookup fails or lists fewer locations than the copy count
 	locs  []string
-	real  []*server // the real servers among the locations, primary first (observed)
-	nrepl int       // locations other than the primary
+	real  []*server // primary first
+	nrepl int
 }
 
 // ---------- inputs ----------
@@ -99,24 +164,22 @@ type input struct {
 	dkind   string
 	clear   []byte
 	body    []byte
-	del     bool
-	scen    int
-	key     uint64
-	cookie  uint32
 	ttlC    int
 	ttlU    int
 	ttlSet  bool
 	detect  string
 	gz128   bool
 	extTab  [][2]string
-	nameLen int
+	filled  bool
 }
 
-var names = []string{"", "a.txt", "b.bin", "c.jpg", "noext", "d.json", "e.GZ", ".txt", "dir/f.html", `q"u\o.txt`, "g.svg", ".svg", "h.xml", "i.tar.gz"}
+var names = []string{"", "a.txt", "b.bin", "c.jpg", "noext", "d.json", "e.GZ", ".txt", "dir/f.html", `q"u\o.txt`, "g.svg", ".svg", "h.xml", "i.tar.gz",
+	"s;c.txt", "p%41.txt", "t.txt ", "d/e/", "sp ace.json", "a.txt", "b.bin"}
 var ctypes = []string{"", "", "text/plain", "text/plain; charset=utf-8", "application/octet-stream", "image/jpeg", "application/json", "application/xml", "text/html", "x-custom/thing", "image/svg+xml", "text/xml; charset=utf-8"}
 var ttls = []string{"", "", "", "3m", "2h", "5d", "0m", "5x", "300m", "7", "1y"}
-var pairKeys = []string{"Seaweed-A", "Seaweed-Bb", "Seaweed-X-Y"}
-var pairVals = []string{"1", "v v", "", "x=y;z", `q"q`}
+var tss = []uint64{2, 12345, 1600000000, 1099511627775, 1099511627776 + 77, 1 << 50}
+var pairKeys = []string{"Seaweed-A", "Seaweed-Bb", "Seaweed-myKey", "Seaweed-X-Y"}
+var pairVals = []string{"1", "v v", "", "x=y;z", `q"q`, "a,b: c", "%41{}"}
 
 func genData(r *hx.Rng) (string, []byte) {
 	switch r.Intn(12) {
@@ -154,66 +217,118 @@ func genData(r *hx.Rng) (string, []byte) {
 
 func longName(n int) string { return strings.Repeat("x", n-4) + ".txt" }
 
-func genInput(r *hx.Rng, nscen int) *input {
-	in := &input{}
-	in.put = r.Chance(1, 6)
+func genName(r *hx.Rng) string {
 	switch x := r.Intn(20); {
 	case x == 0:
-		in.name = longName(255)
+		return longName(255)
 	case x == 1:
-		in.name = longName(256)
+		return longName(256)
 	case x == 2:
-		in.name = longName(300)
-	default:
-		in.name = r.PickStr(names)
+		return longName(300)
 	}
+	return r.PickStr(names)
+}
+
+func genCtype(r *hx.Rng) string {
+	if r.Chance(1, 25) {
+		return "a/" + strings.Repeat("b", 260)
+	}
+	return r.PickStr(ctypes)
+}
+
+func genPairs(r *hx.Rng) [][2]string {
+	var ps [][2]string
+	np := r.PickInt([]int{0, 0, 1, 2, 3, 4})
+	for i := 0; i < np; i++ {
+		ps = append(ps, [2]string{pairKeys[i], r.PickStr(pairVals)})
+	}
+	return ps
+}
+
+func canGzipLabel(b []byte) bool {
+	return len(b) > 0 && !(len(b) > 1 && b[0] == 0x1f && b[1] == 0x8b)
+}
+
+func genInput(r *hx.Rng) *input {
+	in := &input{}
+	in.put = r.Chance(1, 6)
+	in.name = genName(r)
 	if in.put {
 		in.name = ""
 	}
-	if r.Chance(1, 25) {
-		in.ctype = "a/" + strings.Repeat("b", 260)
-	} else {
-		in.ctype = r.PickStr(ctypes)
-	}
+	in.ctype = genCtype(r)
 	in.dkind, in.clear = genData(r)
 	switch x := r.Intn(10); {
 	case x == 0 && len(in.clear) > 0:
 		in.enc = 1
-	case x == 1 && len(in.clear) > 0 && !(in.clear[0] == 0x1f && in.clear[1] == 0x8b):
+	case x == 1 && canGzipLabel(in.clear):
 		in.enc = 2
 	}
-	np := r.PickInt([]int{0, 0, 1, 2, 3})
-	for i := 0; i < np; i++ {
-		k := pairKeys[i]
-		in.pairs = append(in.pairs, [2]string{k, r.PickStr(pairVals)})
-	}
+	in.pairs = genPairs(r)
 	if r.Chance(2, 3) {
-		in.ts = r.PickU64([]uint64{1, 12345, 1600000000, 1099511627775, 1099511627776 + 77, 1 << 50})
+		in.ts = r.PickU64(tss)
 	}
 	in.ttl = r.PickStr(ttls)
-	in.cm = !in.put && r.Chance(1, 15)
-	// a DELETE of a needle flagged as chunk manifest first parses the payload as a manifest
-	// and deletes its chunks through the master: not part of this property
-	in.del = r.Chance(1, 3) && !in.cm
-	switch x := r.Intn(100); {
-	case x < 42:
-		in.scen = 0
-	case x < 84:
-		in.scen = 1
-	case x < 87:
-		in.scen = 2
-	case x < 90:
-		in.scen = 3
-	case x < 93:
-		in.scen = 4
-	default:
-		in.scen = 5
-	}
-	if in.scen >= nscen {
-		in.scen = 0
-	}
-	in.cookie = uint32(r.Next())
+	in.cm = !in.put && r.Chance(1, 20)
 	return in
+}
+
+// the same bytes on the primary under other metadata
+func mutateMeta(r *hx.Rng, old *input) *input {
+	in := *old
+	in.extTab, in.filled = nil, false
+	for n := r.Range(1, 2); n > 0; n-- {
+		switch r.Intn(7) {
+		case 0:
+			if !in.put {
+				in.name = genName(r)
+			}
+		case 1:
+			in.ctype = genCtype(r)
+		case 2:
+			in.pairs = genPairs(r)
+		case 3:
+			if r.Chance(3, 4) {
+				in.ts = r.PickU64(tss)
+			} else {
+				in.ts = 0
+			}
+		case 4:
+			in.ttl = r.PickStr(ttls)
+		case 5:
+			// the compression label: same stored bytes, other flag (a client-made gzip
+			// stream keeps its label: the model identifies a body by its decoded bytes)
+			if in.enc == 0 && canGzipLabel(in.clear) {
+				in.enc = 2
+			} else if in.enc == 2 {
+				in.enc = 0
+			}
+		case 6:
+			if !in.cm {
+				in.put = !in.put
+				if in.put {
+					in.name = ""
+				} else {
+					in.name = genName(r)
+				}
+			}
+		}
+	}
+	return &in
+}
+
+// other bytes under the same metadata
+func mutateData(r *hx.Rng, old *input) *input {
+	in := *old
+	in.extTab, in.filled = nil, false
+	in.dkind, in.clear = genData(r)
+	if in.enc == 1 && len(in.clear) == 0 {
+		in.enc = 0
+	}
+	if in.enc == 2 && !canGzipLabel(in.clear) {
+		in.enc = 0
+	}
+	return &in
 }
 
 // ---------- oracle values (library functions the model takes as given) ----------
@@ -221,6 +336,7 @@ func genInput(r *hx.Rng, nscen int) *input {
 func lower(s string) string { return strings.ToLower(s) }
 
 func (in *input) fill() {
+	in.filled = true
 	in.body = in.clear
 	if in.enc == 1 {
 		g, err := util.GzipData(in.clear)
@@ -230,6 +346,7 @@ func (in *input) fill() {
 	t, _ := needle.ReadTTL(in.ttl)
 	in.ttlC, in.ttlU, in.ttlSet = int(t.Count), int(t.Unit), in.ttl != ""
 	in.detect = http.DetectContentType(in.body)
+	in.gz128 = false
 	if len(in.body) >= 128 {
 		c, _ := util.GzipData(in.body[0:128])
 		in.gz128 = len(c)*10 < 128*9
@@ -253,6 +370,7 @@ func (in *input) fill() {
 		ks = append(ks, e)
 	}
 	sort.Strings(ks)
+	in.extTab = nil
 	for _, e := range ks {
 		in.extTab = append(in.extTab, [2]string{e, mime.TypeByExtension(e)})
 	}
@@ -264,9 +382,9 @@ var fileNameEscaper = strings.NewReplacer(`\`, `\\`, `"`, `\"`)
 
 var client = &http.Client{Timeout: 30 * time.Second}
 
-func (in *input) fid() string { return fmt.Sprintf("%x%08x", in.key, in.cookie) }
+func fid(key uint64, cookie uint32) string { return fmt.Sprintf("%x%08x", key, cookie) }
 
-func (in *input) send(primary string, vid int) int {
+func (in *input) send(primary string, vid int, key uint64, cookie uint32) int {
 	q := url.Values{}
 	if in.ts > 0 {
 		q.Set("ts", strconv.FormatUint(in.ts, 10))
@@ -277,7 +395,7 @@ func (in *input) send(primary string, vid int) int {
 	if in.cm {
 		q.Set("cm", "true")
 	}
-	u := fmt.Sprintf("http://%s/%d,%s", primary, vid, in.fid())
+	u := fmt.Sprintf("http://%s/%d,%s", primary, vid, fid(key, cookie))
 	if len(q) > 0 {
 		u += "?" + q.Encode()
 	}
@@ -322,8 +440,8 @@ func (in *input) send(primary string, vid int) int {
 	return resp.StatusCode
 }
 
-func (in *input) sendDelete(primary string, vid int) int {
-	req, err := http.NewRequest("DELETE", fmt.Sprintf("http://%s/%d,%s", primary, vid, in.fid()), nil)
+func sendDelete(primary string, vid int, key uint64, cookie uint32) int {
+	req, err := http.NewRequest("DELETE", fmt.Sprintf("http://%s/%d,%s", primary, vid, fid(key, cookie)), nil)
 	hx.Must(err)
 	resp, err := client.Do(req)
 	hx.Must(err)
@@ -368,11 +486,11 @@ type sobs struct {
 	dcrc    uint32
 }
 
-func observe(s *server, vid int, in *input) sobs {
+func observe(s *server, vid int, key uint64, cookie uint32) sobs {
 	if s.store.GetVolume(needle.VolumeId(vid)) == nil {
 		return sobs{state: 3}
 	}
-	n := &needle.Needle{Id: types.NeedleId(in.key), Cookie: types.Cookie(in.cookie)}
+	n := &needle.Needle{Id: types.NeedleId(key), Cookie: types.Cookie(cookie)}
 	_, err := s.store.ReadVolumeNeedle(needle.VolumeId(vid), n, nil)
 	if err == storage.ErrorNotFound {
 		return sobs{state: 1}
@@ -407,12 +525,23 @@ func observe(s *server, vid int, in *input) sobs {
 	return o
 }
 
+func sameOutcomes(os []sobs) bool {
+	for _, o := range os[1:] {
+		p := os[0]
+		if o.state != p.state || o.name != p.name || o.mime != p.mime || fmt.Sprint(o.pairs) != fmt.Sprint(p.pairs) || o.lastmod != p.lastmod ||
+			o.ttlC != p.ttlC || o.ttlU != p.ttlU || o.decOk != p.decOk || o.dlen != p.dlen || o.dcrc != p.dcrc {
+			return false
+		}
+	}
+	return true
+}
+
 // the model's request carries the pairs as the server keys them: header name without
 // the Seaweed- prefix, sorted by key (the generator emits them sorted, one per key)
 func trimmed(ps [][2]string) [][2]string {
 	var out [][2]string
 	for _, p := range ps {
-		out = append(out, [2]string{strings.TrimPrefix(p[0], needle.PairNamePrefix), p[1]})
+		out = append(out, [2]string{strings.TrimPrefix(textproto.CanonicalMIMEHeaderKey(p[0]), needle.PairNamePrefix), p[1]})
 	}
 	return out
 }
@@ -425,35 +554,193 @@ func pairsTerm(ps [][2]string) string {
 	return "[" + strings.Join(xs, "; ") + "]"
 }
 
-// lastmod projection: the exact value when the client gave ts; otherwise 1 = "the
-// primary's clock at the upload" (the primary's own value, a replica value equal to
-// it, or - when the primary kept nothing - a value inside the request window)
-func lmToken(in *input, o sobs, primary sobs, isPrimary bool, t0, t1 uint64) uint64 {
-	if o.state != 0 || in.ts > 0 || o.lastmod == 0 {
+// last-modified projection: the exact value, except that a value inside the request
+// window of an upload of this file id that carried no ts is the token 1 = "the primary's
+// clock at such an upload" (the clocks of different steps are not told apart: they
+// mostly are the same second)
+type window struct{ t0, t1 uint64 }
+
+func lmToken(o sobs, ws []window) uint64 {
+	if o.state != 0 || o.lastmod == 0 {
 		return o.lastmod
 	}
-	if isPrimary {
-		return 1
-	}
-	if primary.state == 0 && primary.lastmod != 0 {
-		if o.lastmod == primary.lastmod {
+	for _, w := range ws {
+		if o.lastmod >= w.t0 && o.lastmod <= w.t1 {
 			return 1
 		}
-		return o.lastmod
-	}
-	if o.lastmod >= t0 && o.lastmod <= t1 {
-		return 1
 	}
 	return o.lastmod
 }
 
 func (o sobs) term(lm uint64) string {
-	return fmt.Sprintf("{| so_state := %d; so_flags := %d; so_name := %s; so_mime := %s; so_pairs := %s; so_lastmod := %d; so_ttl := (%d, %d); so_dec_ok := %s; so_len := %d; so_crc := %d |}",
-		o.state, o.flags, hx.Str(ascii(o.name)), hx.Str(ascii(o.mime)), pairsTerm(o.pairs), lm, o.ttlC, o.ttlU, hx.Bool(o.decOk), o.dlen, o.dcrc)
+	if o.state != 0 {
+		return fmt.Sprintf("B %d", o.state)
+	}
+	if o.flags == 0 && o.name == "" && o.mime == "" && len(o.pairs) == 0 && lm == 0 && o.ttlC == 0 && o.ttlU == 0 && o.decOk && o.dlen == 0 && o.dcrc == 0 {
+		return "B 0"
+	}
+	return fmt.Sprintf("V %d %s %s %s %d %d %d %s %d %d",
+		o.flags, hx.Str(ascii(o.name)), hx.Str(ascii(o.mime)), pairsTerm(o.pairs), lm, o.ttlC, o.ttlU, hx.Bool(o.decOk), o.dlen, o.dcrc)
+}
+
+func (in *input) opTerm() string {
+	var ext []string
+	for _, e := range in.extTab {
+		ext = append(ext, "("+hx.Str(e[0])+", "+hx.Str(ascii(e[1]))+")")
+	}
+	return fmt.Sprintf("(U %s %s %s %d %s %d %s %d %d %s %d %d %d %d %s %s [%s])",
+		hx.Bool(in.put), hx.Str(in.name), hx.Str(in.ctype), in.enc, pairsTerm(trimmed(in.pairs)), in.ts, hx.Bool(in.ttlSet), in.ttlC, in.ttlU, hx.Bool(in.cm),
+		len(in.body), len(in.clear), crc32.ChecksumIEEE(in.clear), crc32.ChecksumIEEE(in.body), hx.Str(in.detect), hx.Bool(in.gz128), strings.Join(ext, "; "))
+}
+
+func (in *input) canon() string {
+	return fmt.Sprintf("put=%v|n=%s|ct=%s|enc=%d|p=%v|ts=%d|ttl=%s|cm=%v|d=%s/%d/%x", in.put, in.name, in.ctype, in.enc, in.pairs, in.ts, in.ttl, in.cm,
+		in.dkind, len(in.clear), crc32.ChecksumIEEE(in.clear))
+}
+
+// ---------- histories ----------
+
+type hstep struct {
+	ki     int    // index of the file id in the case
+	wrong  bool   // present another cookie
+	in     *input // nil = delete
+	faults []int  // per listed replica
+	kind   string
+}
+
+type hcase struct {
+	scen  int
+	nkeys int
+	steps []hstep
+	kind  string
+}
+
+func blocks(code int, del bool) bool { return code == 1 || code == 2 || code == 3 || (del && code >= 4) }
+
+func genFaults(r *hx.Rng, nrepl int, del bool, quiet bool) []int {
+	fs := make([]int, nrepl)
+	if quiet || nrepl == 0 {
+		return fs
+	}
+	// at most one replica misbehaves in most steps; a hard fault of an upload costs 1.4 s
+	// of the sender's retries
+	x := r.Intn(100)
+	var code int
+	switch {
+	case del && x < 55, !del && x < 64:
+		return fs
+	case del && x < 73, !del && x < 74:
+		code = 1
+	case del && x < 83, !del && x < 79:
+		code = 2
+	case del && x < 90, !del && x < 83:
+		code = 3
+	case del, !del && x < 95:
+		code = 4
+	default:
+		code = 5
+	}
+	fs[r.Intn(nrepl)] = code
+	if nrepl > 1 && r.Chance(1, 6) {
+		fs[r.Intn(nrepl)] = r.PickInt([]int{1, 4, 3})
+	}
+	return fs
+}
+
+func anyBlocks(fs []int, del bool) bool {
+	for _, f := range fs {
+		if blocks(f, del) {
+			return true
+		}
+	}
+	return false
+}
+
+func genCase(r *hx.Rng, scens []*scenario) *hcase {
+	c := &hcase{}
+	switch x := r.Intn(100); {
+	case x < 43:
+		c.scen = 0
+	case x < 86:
+		c.scen = 1
+	case x < 89:
+		c.scen = 2
+	case x < 94:
+		c.scen = 3
+	case x < 97:
+		c.scen = 4
+	default:
+		c.scen = 5
+	}
+	sc := scens[c.scen]
+	c.kind = sc.name
+	c.nkeys = r.PickInt([]int{1, 1, 2})
+	nsteps := r.Range(2, 6)
+	if sc.lost {
+		// every upload costs the sender's three attempts
+		nsteps = r.Range(1, 2)
+	}
+	if sc.nolk {
+		nsteps = r.Range(1, 3)
+	}
+	last := make([]*input, c.nkeys) // the last upload sent for the file id
+	hadCM := make([]bool, c.nkeys)
+	var prev *hstep // the previous step, when a replica blocked it
+	for len(c.steps) < nsteps {
+		var st hstep
+		if prev != nil && r.Chance(3, 5) {
+			// recovery: the client retries the very same request, the replicas answer again
+			st = hstep{ki: prev.ki, wrong: prev.wrong, in: prev.in, kind: "retry-after-fault"}
+			st.faults = genFaults(r, sc.nrepl, st.in == nil, r.Chance(5, 6))
+		} else {
+			st.ki = r.Intn(c.nkeys)
+			old := last[st.ki]
+			x := r.Intn(100)
+			switch {
+			case old == nil && x < 93:
+				st.in, st.kind = genInput(r), "fresh"
+			case old == nil:
+				st.in, st.kind = nil, "delete-absent"
+			case x < 22:
+				st.in, st.kind = old, "identical"
+			case x < 44:
+				st.in, st.kind = mutateMeta(r, old), "same-bytes-other-meta"
+			case x < 56:
+				st.in, st.kind = mutateData(r, old), "other-bytes-same-meta"
+			case x < 68:
+				st.in, st.kind = genInput(r), "other-upload"
+			case x < 74:
+				st.in, st.wrong, st.kind = old, true, "upload-other-cookie"
+			case x < 79 && !hadCM[st.ki]:
+				st.in, st.wrong, st.kind = nil, true, "delete-other-cookie"
+			case !hadCM[st.ki]:
+				st.in, st.kind = nil, "delete"
+			default:
+				st.in, st.kind = old, "identical"
+			}
+			st.faults = genFaults(r, sc.nrepl, st.in == nil, false)
+		}
+		if st.in != nil {
+			if !st.wrong {
+				last[st.ki] = st.in
+			}
+			if st.in.cm {
+				// a DELETE of a needle flagged as chunk manifest first parses the payload as a
+				// manifest and deletes its chunks through the master: not part of this property
+				hadCM[st.ki] = true
+			}
+		}
+		c.steps = append(c.steps, st)
+		prev = nil
+		if anyBlocks(st.faults, st.in == nil) {
+			prev = &c.steps[len(c.steps)-1]
+		}
+	}
+	return c
 }
 
 func main() {
-	out := hx.Flags("C40", 300)
+	out := hx.Flags("C40", 120)
 	hx.Must(fla9.Set("alsologtostderr", "false"))
 	hx.Must(fla9.Set("stderrthreshold", "FATAL"))
 	debug := os.Getenv("C40_DEBUG") != ""
@@ -470,6 +757,10 @@ func main() {
 			PublicUrl string `json:"publicUrl"`
 		}
 		var ls []loc
+		if vid == "8" {
+			json.NewEncoder(w).Encode(map[string]interface{}{"volumeId": vid, "error": "volume id 8 not found"})
+			return
+		}
 		for _, a := range lookup[vid] {
 			ls = append(ls, loc{a, a})
 		}
@@ -478,38 +769,18 @@ func main() {
 	master := mlis.Addr().String()
 
 	P, A, B, C := newServer(master), newServer(master), newServer(master), newServer(master)
-	// a replica that answers every request with 500
-	flis, err := net.Listen("tcp", "127.0.0.1:0")
-	hx.Must(err)
-	go http.Serve(flis, http.HandlerFunc(func(w http.ResponseWriter, r *http.Request) {
-		io.Copy(io.Discard, r.Body)
-		w.WriteHeader(500)
-		w.Write([]byte(`{"error":"injected failure"}`))
-	}))
-	// a replica that is down: every connection is closed at once (the port stays ours, so
-	// no parallel shard can be listening on it)
-	dlis, err := net.Listen("tcp", "127.0.0.1:0")
-	hx.Must(err)
-	down := dlis.Addr().String()
-	go func() {
-		for {
-			c, err := dlis.Accept()
-			if err != nil {
-				return
-			}
-			c.Close()
-		}
-	}()
 
 	scens := []*scenario{
 		{name: "one-replica", vid: 1, locs: []string{P.addr, A.addr}, real: []*server{P, A}},
 		{name: "two-replicas", vid: 2, locs: []string{P.addr, A.addr, B.addr}, real: []*server{P, A, B}},
-		{name: "replica-500", vid: 3, fault: 1, locs: []string{P.addr, A.addr, flis.Addr().String()}, real: []*server{P, A}},
-		{name: "replica-down", vid: 4, fault: 2, locs: []string{P.addr, down}, real: []*server{P}},
-		{name: "replica-lost-volume", vid: 5, fault: 3, locs: []string{P.addr, C.addr}, real: []*server{P, C}},
+		{name: "replica-lost-volume", vid: 5, lost: true, locs: []string{P.addr, C.addr}, real: []*server{P, C}},
 		{name: "no-replication", vid: 6, locs: []string{P.addr}, real: []*server{P}},
+		// replication 002 but the master knows two locations only: refused before the local write
+		{name: "short-location-list", vid: 7, nolk: true, locs: []string{P.addr, A.addr}, real: []*server{P, A}},
+		// the master answers the lookup with an error
+		{name: "lookup-error", vid: 8, nolk: true, locs: []string{P.addr, A.addr}, real: []*server{P, A}},
 	}
-	repl := []string{"001", "002", "002", "001", "001", "000"}
+	repl := []string{"001", "002", "001", "000", "002", "001"}
 	for i, sc := range scens {
 		sc.nrepl = len(sc.locs) - 1
 		lookup[strconv.Itoa(sc.vid)] = sc.locs
@@ -517,106 +788,178 @@ func main() {
 	}
 	A.addVolume(1, "001")
 	A.addVolume(2, "002")
-	A.addVolume(3, "002")
+	A.addVolume(7, "002")
+	A.addVolume(8, "001")
 	B.addVolume(2, "002")
 	C.addVolume(9, "000")
 
-	out.Rule = "cases 0-2 = fixed witnesses of the findings, case 3 = regression witness of the repaired lost-volume defect; then random single uploads of a fresh file id to the primary's real PostHandler (5/6 multipart POST, 1/6 PUT): file names from a universe with/without known extensions, a path, quotes, dot-files and lengths 255/256/300; part Content-Type from 12 values (none, text, octet-stream, image, json, xml, custom, > 255 bytes); payloads empty / small and large text / small and large binary (compressible or not) / jpeg / json / xml / a gzip file, sent plain, gzip-encoded or falsely labelled gzip; 0-3 Seaweed- pairs; ts absent or from 6 values incl. >= 2^40; ttl from 9 strings incl. malformed; cm flag; scenarios: one replica 42%, two replicas 42%, a replica answering 500 3%, a replica dropping every connection 3%, a listed volume server that does not hold the volume 3% (each of the three costs ~1.4 s of UploadData retries), unreplicated 7%; one third of the cases then DELETE the file through the primary; non-trivial = the upload was acknowledged and some replica other than the primary serves the blob; distinct = canonical request"
+	out.Rule = "the first shard starts with fixed witnesses: cases 0-2 findings 0 and 1, case 3 regression witness of the repaired lost-volume defect, cases 4-5 finding 2 (same bytes under other metadata, without and with a replica fault), cases 6-8 retry / overwrite / delete sequences with replica faults and recovery, cases 9-10 a failing location lookup; then random histories of 2-6 steps (1-2 when the replica does not hold the volume) on one or two fresh file ids of one volume: scenarios one replica 43%, two replicas 43%, a listed volume server that does not hold the volume 3%, unreplicated 5%, a master that lists fewer locations than the copy count 3%, a master that answers the lookup with an error 3%; a step is, for a file id not uploaded yet, a fresh upload 93% or a delete; otherwise the identical upload 22%, the same bytes under other metadata (name, part Content-Type, pairs, ts, ttl, gzip label, POST/PUT) 22%, other bytes under the same metadata 12%, an unrelated upload 12%, the identical upload under another cookie 6%, a delete under another cookie 5%, a delete 21%; per step one replica (sometimes both) answers 500 to every request (10% of uploads / 18% of deletes), drops every connection (5% / 10%), serves the request and then answers 500 (4% / 7%), or answers 500 to the first request (12% / 10%) or the first two requests (5% of uploads) only; after a step a replica blocked, 60% of the next steps are the very same request again, 5/6 of them with all replicas answering; uploads as before: 5/6 multipart POST, 1/6 PUT, file names with/without known extensions, a path, quotes, dot-files, lengths 255/256/300, 12 part Content-Types incl. > 255 bytes, payloads empty / small and large text / small and large binary / jpeg / json / xml / a gzip file, plain, gzip-encoded or falsely labelled gzip, 0-3 Seaweed- pairs, ts absent or from 6 values incl. >= 2^40, ttl from 9 strings incl. malformed, cm flag; non-trivial = some upload of the history was acknowledged while a replica other than the primary serves the blob; distinct = canonical history"
 	root := hx.NewRng(out.Seed)
 	keyBase := uint64(out.Seed%1000)*100000 + 1
-	witnesses := fixedWitnesses()
+	var witnesses []*hcase
+	if out.Seed%1000 == 0 {
+		witnesses = fixedWitnesses()
+	}
 	for i := 0; i < out.N; i++ {
 		r := root.Fork()
-		var in *input
-		kind := ""
+		var c *hcase
 		if i < len(witnesses) {
-			in = witnesses[i]
-			kind = "witness-" + strconv.Itoa(i)
+			c = witnesses[i]
+			c.kind = "witness-" + strconv.Itoa(i)
 		} else {
-			in = genInput(r, len(scens))
+			c = genCase(r, scens)
 		}
-		in.key = keyBase + uint64(i)
-		in.fill()
-		sc := scens[in.scen]
-		if kind == "" {
-			kind = sc.name
+		sc := scens[c.scen]
+		keys := make([]uint64, c.nkeys)
+		cookies := make([]uint32, c.nkeys)
+		windows := make([][]window, c.nkeys)
+		var keyTerms []string
+		for j := range keys {
+			keys[j] = keyBase + uint64(i)*4 + uint64(j)
+			cookies[j] = uint32(r.Next()) | 1
+			if i < len(witnesses) {
+				cookies[j] = 0x01111111*uint32(i+1) | 1
+			}
+			keyTerms = append(keyTerms, strconv.FormatUint(keys[j], 10))
 		}
-		t0 := uint64(time.Now().Unix())
-		status := in.send(P.addr, sc.vid)
-		t1 := uint64(time.Now().Unix())
-		var after []string
-		var obs []sobs
-		for _, s := range sc.real {
-			obs = append(obs, observe(s, sc.vid, in))
-		}
-		served := false
-		for j, o := range obs {
-			after = append(after, o.term(lmToken(in, o, obs[0], j == 0, t0, t1)))
-			if j > 0 && o.state == 0 && status < 300 {
-				served = true
+		var stepTerms, canon []string
+		nontrivial := false
+		for si := range c.steps {
+			st := &c.steps[si]
+			key, cookie := keys[st.ki], cookies[st.ki]
+			if st.wrong {
+				cookie++
+			}
+			for j, s := range sc.real[1:] {
+				s.setFault(st.faults[j])
+			}
+			var status int
+			var opTerm string
+			if st.in != nil {
+				if !st.in.filled {
+					st.in.fill()
+				}
+				t0 := uint64(time.Now().Unix())
+				status = st.in.send(P.addr, sc.vid, key, cookie)
+				t1 := uint64(time.Now().Unix())
+				if st.in.ts == 0 {
+					windows[st.ki] = append(windows[st.ki], window{t0, t1})
+				}
+				opTerm = st.in.opTerm()
+				canon = append(canon, fmt.Sprintf("up k%d w=%v f=%v %s", st.ki, st.wrong, st.faults, st.in.canon()))
+			} else {
+				status = sendDelete(P.addr, sc.vid, key, cookie)
+				opTerm = "Del"
+				canon = append(canon, fmt.Sprintf("del k%d w=%v f=%v", st.ki, st.wrong, st.faults))
+			}
+			for _, s := range sc.real[1:] {
+				s.setFault(0)
+			}
+			var kviews []string
+			var stepObs []sobs
+			for j := range keys {
+				var vs []string
+				for si2, s := range sc.real {
+					o := observe(s, sc.vid, keys[j], cookies[j])
+					if j == st.ki {
+						stepObs = append(stepObs, o)
+					}
+					vs = append(vs, o.term(lmToken(o, windows[j])))
+					if j == st.ki && si2 > 0 && o.state == 0 && st.in != nil && status < 300 {
+						nontrivial = true
+					}
+				}
+				kviews = append(kviews, "["+strings.Join(vs, "; ")+"]")
+			}
+			var fts []string
+			for _, f := range st.faults {
+				fts = append(fts, strconv.Itoa(f))
+			}
+			stepTerms = append(stepTerms, fmt.Sprintf("{| h_key := %d; h_ck := %d; h_op := %s; h_faults := [%s]; i_status := %d; i_views := [%s] |}",
+				key, cookie, opTerm, strings.Join(fts, "; "), status, strings.Join(kviews, "; ")))
+			out.Count("step:"+st.kind, 1)
+			if status >= 500 && len(stepObs) > 1 {
+				// a failed request may leave the servers in different states: allowed, but reported
+				if sameOutcomes(stepObs) {
+					out.Count("failed-step:servers-agree", 1)
+				} else {
+					out.Count("failed-step:servers-diverge", 1)
+				}
+			}
+			if st.in != nil && st.in.cm {
+				out.Count("upload:chunk-manifest-flag", 1)
+			}
+			if st.in != nil {
+				out.Count(fmt.Sprintf("upload-status:%d", status), 1)
+				out.Count("data:"+st.in.dkind, 1)
+				out.Count(fmt.Sprintf("enc:%d", st.in.enc), 1)
+				if st.in.put {
+					out.Count("method:put", 1)
+				} else {
+					out.Count("method:post", 1)
+				}
+			} else {
+				out.Count(fmt.Sprintf("delete-status:%d", status), 1)
+			}
+			for _, f := range st.faults {
+				out.Count(fmt.Sprintf("fault:%d", f), 1)
+			}
+			if debug {
+				fmt.Fprintf(os.Stderr, "--- case %d step %d %s %s status=%d\n", i, si, st.kind, canon[len(canon)-1], status)
+				for _, a := range kviews {
+					fmt.Fprintln(os.Stderr, "   ", a)
+				}
 			}
 		}
-		delStatus := 0
-		var afterDel []string
-		if in.del {
-			delStatus = in.sendDelete(P.addr, sc.vid)
-			for j, s := range sc.real {
-				o := observe(s, sc.vid, in)
-				afterDel = append(afterDel, o.term(lmToken(in, o, obs[0], j == 0, t0, t1)))
-			}
-		}
-		var ext []string
-		for _, e := range in.extTab {
-			ext = append(ext, "("+hx.Str(e[0])+", "+hx.Str(ascii(e[1]))+")")
-		}
-		term := fmt.Sprintf("({| c_put := %s; c_name := %s; c_ctype := %s; c_enc := %d; c_pairs := %s; c_ts := %d; c_ttl_set := %s; c_ttl := (%d, %d); c_cm := %s; "+
-			"c_body_len := %d; c_clear_len := %d; c_clear_crc := %d; c_body_crc := %d; c_detect := %s; c_gz128 := %s; c_ext_types := [%s]; "+
-			"c_nrepl := %d; c_fault := %d; c_delete := %s; "+
-			"i_status := %d; i_after := [%s]; i_del_status := %d; i_after_del := [%s] |})%%N",
-			hx.Bool(in.put), hx.Str(in.name), hx.Str(in.ctype), in.enc, pairsTerm(trimmed(in.pairs)), in.ts, hx.Bool(in.ttlSet), in.ttlC, in.ttlU, hx.Bool(in.cm),
-			len(in.body), len(in.clear), crc32.ChecksumIEEE(in.clear), crc32.ChecksumIEEE(in.body), hx.Str(in.detect), hx.Bool(in.gz128), strings.Join(ext, "; "),
-			sc.nrepl, sc.fault, hx.Bool(in.del),
-			status, strings.Join(after, "; "), delStatus, strings.Join(afterDel, "; "))
-		canon := fmt.Sprintf("put=%v|n=%s|ct=%s|enc=%d|p=%v|ts=%d|ttl=%s|cm=%v|d=%s/%d/%x|sc=%s|del=%v", in.put, in.name, in.ctype, in.enc, in.pairs, in.ts, in.ttl, in.cm,
-			in.dkind, len(in.clear), crc32.ChecksumIEEE(in.clear), sc.name, in.del)
-		out.Add(term, canon, served, kind)
+		term := fmt.Sprintf("({| c_nrepl := %d; c_lost := %s; c_nolookup := %s; c_keys := [%s]; c_hist := [\n  %s] |})%%N",
+			sc.nrepl, hx.Bool(sc.lost), hx.Bool(sc.nolk), strings.Join(keyTerms, "; "), strings.Join(stepTerms, ";\n  "))
+		out.Add(term, "sc="+sc.name+"|"+strings.Join(canon, " ; "), nontrivial, c.kind)
 		out.Count("scenario:"+sc.name, 1)
-		out.Count("data:"+in.dkind, 1)
-		out.Count(fmt.Sprintf("enc:%d", in.enc), 1)
-		out.Count(fmt.Sprintf("status:%d", status), 1)
-		if in.del {
-			out.Count(fmt.Sprintf("delete-status:%d", delStatus), 1)
-		}
-		if in.put {
-			out.Count("method:put", 1)
-		} else {
-			out.Count("method:post", 1)
-		}
-		if debug {
-			fmt.Fprintf(os.Stderr, "--- %d %s status=%d del=%d\n", i, canon, status, delStatus)
-			for _, a := range after {
-				fmt.Fprintln(os.Stderr, "   ", a)
-			}
-			for _, a := range afterDel {
-				fmt.Fprintln(os.Stderr, "  D", a)
-			}
-		}
+		out.Count(fmt.Sprintf("steps:%d", len(c.steps)), 1)
+		out.Count(fmt.Sprintf("file-ids:%d", c.nkeys), 1)
 	}
 	out.Write()
 }
 
-func fixedWitnesses() []*input {
+func up(in *input, faults ...int) hstep { return hstep{in: in, faults: faults, kind: "witness"} }
+func del(faults ...int) hstep           { return hstep{faults: faults, kind: "witness"} }
+
+func fixedWitnesses() []*hcase {
 	txt := []byte("hello world hello world ")
 	bin := []byte{0, 1, 2, 3, 4, 5, 6, 7, 8, 9}
-	return []*input{
+	one := func(steps ...hstep) *hcase { return &hcase{scen: 0, nkeys: 1, steps: steps} }
+	two := func(steps ...hstep) *hcase { return &hcase{scen: 1, nkeys: 1, steps: steps} }
+	v1 := &input{name: "a.txt", ctype: "text/x-log", clear: txt, dkind: "text-small", ts: 12345}
+	v1b := &input{name: "b.txt", ctype: "text/x-log", clear: txt, dkind: "text-small", ts: 12345}
+	v2 := &input{name: "a.txt", ctype: "text/x-log", clear: []byte("second version of the blob"), dkind: "text-small", ts: 12346,
+		pairs: [][2]string{{"Seaweed-A", "1"}}}
+	return []*hcase{
 		// 0: no mime on the primary, text payload: the replica is sent the sniffed type
-		{name: "b.bin", ctype: "", clear: txt, dkind: "text-small", ts: 12345, scen: 0, cookie: 0x11111111},
+		one(up(&input{name: "b.bin", ctype: "", clear: txt, dkind: "text-small", ts: 12345}, 0)),
 		// 1: PUT with application/octet-stream: kept by the primary, dropped by the replica
-		{put: true, ctype: "application/octet-stream", clear: bin, dkind: "bin-small", ts: 12345, scen: 0, cookie: 0x22222222},
+		one(up(&input{put: true, ctype: "application/octet-stream", clear: bin, dkind: "bin-small", ts: 12345}, 0)),
 		// 2: empty payload: the primary keeps nothing, the replica a gzip stream with all metadata; delete only works on the replica
-		{name: "a.txt", ctype: "text/plain", clear: nil, dkind: "empty", ts: 12345, ttl: "3m", pairs: [][2]string{{"Seaweed-A", "1"}}, scen: 0, del: true, cookie: 0x33333333},
+		one(up(&input{name: "a.txt", ctype: "text/plain", clear: nil, dkind: "empty", ts: 12345, ttl: "3m", pairs: [][2]string{{"Seaweed-A", "1"}}}, 0), del(0)),
 		// 3: regression witness of a repaired defect: a listed replica that does not hold the volume used to
 		// acknowledge the replicated write without storing it; it now answers with an error and the upload fails
-		{name: "a.txt", ctype: "text/plain", clear: txt, dkind: "text-small", ts: 12345, scen: 4, cookie: 0x44444444},
+		{scen: 2, nkeys: 1, steps: []hstep{up(&input{name: "a.txt", ctype: "text/plain", clear: txt, dkind: "text-small", ts: 12345}, 0)}},
+		// 4: finding 2 without a fault: the same bytes under another mime type; the primary answers
+		// "unchanged" and keeps text/plain, the replica (gzip stream before, plain now) stores image/jpeg
+		one(up(&input{name: "a.txt", ctype: "text/plain", clear: txt, dkind: "text-small", ts: 12345}, 0),
+			up(&input{name: "a.txt", ctype: "image/jpeg", clear: txt, dkind: "text-small", ts: 12345}, 0)),
+		// 5: finding 2 after a failed upload: the same bytes under another name
+		one(up(v1, 1), up(v1b, 0)),
+		// 6: an upload that fails on the replica and its identical retry; an overwrite that fails on
+		// the replica and its identical retry; a delete that fails on the replica and its retry
+		one(up(v1, 1), up(v1, 0), up(v2, 2), up(v2, 0), del(1), del(0)),
+		// 7: two replicas: the second misses the upload, the first the overwrite; retries; the
+		// first replica answers the first attempt of the last upload with 500
+		two(up(v1, 0, 1), up(v1, 0, 0), up(v2, 1, 0), up(v2, 0, 0), up(v1, 4, 0)),
+		// 8: the replica stores the upload but its answer is lost (reported failed, all servers agree);
+		// the retry; a delete whose answer is lost; the first two attempts of an upload fail
+		one(up(v1, 3), up(v1, 0), del(3), del(0), up(v2, 5)),
+		// 9, 10: the location lookup fails: refused before anything is written
+		{scen: 4, nkeys: 1, steps: []hstep{up(v1, 0), del(0)}},
+		{scen: 5, nkeys: 1, steps: []hstep{up(v1, 0)}},
 	}
 }
